@@ -57,3 +57,12 @@ Section Iter.
     destruct (halted s) eqn:E; [lia|]. specialize (IH (f s)). specialize (Hf s E). lia.
   Qed.
 End Iter.
+
+(* two loop bodies that agree on the states of an invariant give the same loop *)
+Lemma iter_nat_agree {St : Type} (halted : St -> bool) (f g : St -> St) (Inv : St -> Prop) :
+  (forall s, Inv s -> f s = g s) -> (forall s, halted s = false -> Inv s -> Inv (g s)) ->
+  forall n s, Inv s -> iter_nat halted f n s = iter_nat halted g n s.
+Proof.
+  intros Hfg Hinv n. induction n as [|n IH]; intros s Hs; cbn; [reflexivity|].
+  destruct (halted s) eqn:E; [reflexivity|]. rewrite (Hfg s Hs). apply IH, Hinv; assumption.
+Qed.
